@@ -31,6 +31,7 @@ type Program struct {
 	// files that came from the lemma overlay (abs path in repo -> source path)
 	OverlayFiles map[string]string
 	LoadErrors   []string
+	DroppedLemmas map[string]string // lemma/oracle files of /verif left out because they no longer compile: file -> error
 	purity       *purityInfo
 	purityMu     sync.Mutex
 	byName       map[string]*types.Package
@@ -76,17 +77,47 @@ func loadProgram(repoDir, verifDir string, pkgRel []string) (*Program, error) {
 		Env:        append(os.Environ(), "GOFLAGS=-mod=mod", "GOPROXY=off", "GOSUMDB=off", "GOTOOLCHAIN=local", "CGO_ENABLED=0"),
 		Overlay:    overlay,
 	}
-	pkgs, err := packages.Load(cfg, patterns...)
-	if err != nil {
-		return nil, err
-	}
-	for _, pk := range pkgs {
-		for _, e := range pk.Errors {
-			p.LoadErrors = append(p.LoadErrors, e.Error())
+	var pkgs []*packages.Package
+	for attempt := 0; ; attempt++ {
+		var err error
+		pkgs, err = packages.Load(cfg, patterns...)
+		if err != nil {
+			return nil, err
 		}
-	}
-	if len(p.LoadErrors) > 0 {
-		return nil, fmt.Errorf("package load errors: %s", strings.Join(p.LoadErrors, "; "))
+		p.LoadErrors = nil
+		for _, pk := range pkgs {
+			for _, e := range pk.Errors {
+				p.LoadErrors = append(p.LoadErrors, e.Error())
+			}
+		}
+		if len(p.LoadErrors) == 0 {
+			break
+		}
+		// a lemma or oracle file of /verif that no longer compiles against the tree (e.g. it names a
+		// function that was removed) must not take the whole check down: it is left out, reported as a
+		// violation of its own by the check, and everything else is checked as usual
+		dropped := false
+		if attempt < 8 {
+			for dst := range overlay {
+				for _, e := range p.LoadErrors {
+					if strings.Contains(e, dst) {
+						if p.DroppedLemmas == nil {
+							p.DroppedLemmas = map[string]string{}
+						}
+						if _, done := p.DroppedLemmas[p.OverlayFiles[dst]]; !done {
+							p.DroppedLemmas[p.OverlayFiles[dst]] = e
+						}
+						delete(overlay, dst)
+						delete(p.OverlayFiles, dst)
+						dropped = true
+						break
+					}
+				}
+			}
+		}
+		if !dropped {
+			return nil, fmt.Errorf("package load errors: %s", strings.Join(p.LoadErrors, "; "))
+		}
 	}
 	p.Pkgs = pkgs
 	prog, spkgs := ssautil.AllPackages(pkgs, ssa.GlobalDebug|ssa.BuildSerially)
